@@ -2,6 +2,7 @@ import Quanto.Wire
 import Quanto.Spec.C01
 import Quanto.Spec.C04
 import Quanto.Spec.C02
+import Quanto.Spec.C06
 open Quanto
 
 /-- scalar-or-per-element lookup -/
@@ -107,6 +108,41 @@ def handle (toks : List String) : String :=
       let ax : Axis := if axis == "none" then none else some (axis == "0")
       let r := specC03 F (qmax.toNat! : Rat) (parseFT F shape xb) ax (parseFT F sshape sb)
       if r.1 = .ok then "ok" else s!"fail {r.1.name} {r.2}"
+  -- C14: cfgw shape qtype axis gs opt
+  | ["cfgw", shape, q, axis, gs, opt] =>
+      let qt := (QType.ofName q).getD .qint8
+      let g : Option Nat := if gs == "none" then none else some gs.toNat!
+      let o : OptFamily := match opt with | "symmetric" => .symmetric | "affine" => .affine | _ => .default
+      match validateWeight (parseShape shape) qt (parseAxis axis) g o with
+      | .error e => s!"err {e.name}"
+      | .ok c => s!"ok {c.qtype.name} {showAxis c.axis} {match c.groupSize with | none => "none" | some g => toString g}"
+  | ["cfga", sshape] =>
+      match validateActivation (parseShape sshape) with
+      | .error e => s!"err {e.name}"
+      | .ok _ => "ok"
+  | ["cfgq", shape, q, axis, gs] =>
+      let qt := (QType.ofName q).getD .qint8
+      let g : Option Nat := if gs == "none" then none else some gs.toNat!
+      match validateAffine (parseShape shape) qt (parseAxis axis) g with
+      | .error e => s!"err {e.name}"
+      | .ok _ => "ok"
+  | ["cfgs", shape, axis, sshape] =>
+      match symValidate (parseShape shape) (parseAxis axis) (parseShape sshape) with
+      | .error e => s!"err {e.name}"
+      | .ok a => s!"ok {showAxis a}"
+  | ["autogroup", n] =>
+      match autoGroup n.toNat! with
+      | none => "none"
+      | some g => toString g
+  -- C06: wfbytes qtype axis size outerDtype dataShape dataDtype scaleShape scaleDtype
+  | ["wfbytes", q, axis, size, od, ds, dd, ss, sd] =>
+      let ax : Axis := if axis == "none" then none else some (axis == "0")
+      (wfQBytes ⟨q, ax, parseShape size, od, parseShape ds, dd, parseShape ss, sd⟩).name
+  -- wfbits qtype axis gs size outerDtype packedBits packedSize payloadShape payloadDtype scaleShape scaleDtype zeroShape zeroDtype
+  | ["wfbits", q, axis, gs, size, od, pb, psz, pls, pld, ss, sd, zs, zd] =>
+      let ax : Axis := if axis == "none" then none else some (axis == "0")
+      let g : Option Nat := if gs == "none" then none else some gs.toNat!
+      (wfQBits ⟨q, ax, g, parseShape size, od, pb.toNat!, parseShape psz, parseShape pls, pld, parseShape ss, sd, parseShape zs, zd⟩).name
   -- C04
   | ["pack", bits, shape, data] =>
       let t : T Nat := ⟨parseShape shape, (parseNatList data).toArray⟩
